@@ -64,54 +64,64 @@ def loads(s):
 
 
 class Model:
+    """One model.exe subprocess; line protocol with a per-call timeout (a model that does not
+    answer is a model bug or an unguarded nat blow-up, never a property verdict)."""
+    TIMEOUT = 120.0
+
     def __init__(self, exe):
         self.exe = exe
         self.p = None
         self.calls = 0
+        self._buf = b''
 
     def start(self):
-        self.p = subprocess.Popen(['bash', '-c', f'ulimit -s unlimited 2>/dev/null; exec "{self.exe}"'],
-                                  stdin=subprocess.PIPE, stdout=subprocess.PIPE, text=True, bufsize=1)
+        self.p = subprocess.Popen(['bash', '-c', f'ulimit -s unlimited 2>/dev/null; ulimit -v 16000000 2>/dev/null; exec "{self.exe}"'],
+                                  stdin=subprocess.PIPE, stdout=subprocess.PIPE, bufsize=0)
+        self._buf = b''
+
+    def _readline(self, what):
+        import os
+        import select
+        import time
+        deadline = time.time() + self.TIMEOUT
+        while b'\n' not in self._buf:
+            left = deadline - time.time()
+            if left <= 0:
+                self.kill()
+                raise ModelError(f'model timed out on {what[:300]}')
+            r, _, _ = select.select([self.p.stdout], [], [], left)
+            if not r:
+                continue
+            chunk = os.read(self.p.stdout.fileno(), 1 << 16)
+            if not chunk:
+                self.kill()
+                raise ModelError(f'model died on {what[:300]}')
+            self._buf += chunk
+        line, self._buf = self._buf.split(b'\n', 1)
+        return line.decode()
+
+    def kill(self):
+        if self.p is not None:
+            try:
+                self.p.kill()
+                self.p.wait(timeout=5)
+            except Exception:
+                pass
+            self.p = None
 
     def call(self, req):
         if self.p is None or self.p.poll() is not None:
             self.start()
         line = dumps(req)
-        self.p.stdin.write(line + '\n')
-        self.p.stdin.flush()
-        ans = self.p.stdout.readline()
+        self.p.stdin.write((line + '\n').encode())
+        ans = self._readline(line)
         self.calls += 1
-        if not ans:
-            self.p = None
-            raise ModelError(f'model died on {line[:300]}')
-        ans = ans.rstrip('\n')
         if ans.startswith('!'):
             raise ModelError(f'{ans} on {line[:300]}')
         return loads(ans)
 
     def call_many(self, reqs):
-        """Pipelined: write all requests, then read all answers (requests must be < pipe buffer
-        in aggregate or the model must keep up; we interleave in chunks to be safe)."""
-        out = []
-        CH = 64
-        for i in range(0, len(reqs), CH):
-            chunk = reqs[i:i + CH]
-            if self.p is None or self.p.poll() is not None:
-                self.start()
-            lines = [dumps(r) for r in chunk]
-            if sum(len(l) for l in lines) > 30000:
-                for r in chunk:
-                    out.append(self.call(r))
-                continue
-            self.p.stdin.write('\n'.join(lines) + '\n')
-            self.p.stdin.flush()
-            for l in lines:
-                ans = self.p.stdout.readline().rstrip('\n')
-                self.calls += 1
-                if not ans or ans.startswith('!'):
-                    raise ModelError(f'{ans!r} on {l[:300]}')
-                out.append(loads(ans))
-        return out
+        return [self.call(r) for r in reqs]
 
     def close(self):
         if self.p is not None:
